@@ -370,3 +370,100 @@ def gen_conc_program(seed, family="obj", tier="quick", mp=None, ntasks=None):
     return {"seed": seed, "engine": "conc", "family": family, "cfg": cfg, "knobs": knobs, "pids": pids,
             "formats": formats, "contents": contents, "mcontents": mcontents, "setup": setup,
             "tasks": tasks, "stagger": stagger}
+
+
+# ------------------------------------------------------------------------------------------
+# single-call engines (FAULT / CRASH / ATOM): the fixed menus and random variants
+# ------------------------------------------------------------------------------------------
+
+def _st(pid, c, **kw):
+    return dict({"op": "store", "pid": pid, "c": c, "kind": "str"}, **kw)
+
+
+def single_states():
+    """Start states as set-up histories over pids [p0,p1,p2], contents [A,B], formats [ns,f1]."""
+    return [
+        ("empty", []),
+        ("p0=A", [_st(0, 0)]),
+        ("p0=A,p1=A", [_st(0, 0), _st(1, 0)]),
+        ("unref-A", [_st(None, 0)]),
+        ("p0=A+meta,p1=B+meta", [_st(0, 0), {"op": "smeta", "pid": 0, "fmt": None, "m": 0},
+                                 {"op": "smeta", "pid": 0, "fmt": 1, "m": 1}, _st(1, 1),
+                                 {"op": "smeta", "pid": 1, "fmt": None, "m": 1}]),
+        ("p0->missing", [{"op": "tag", "pid": 0, "cid": ["x", 0]}]),
+        ("p0=A,p1=B", [_st(0, 0), _st(1, 1)]),
+    ]
+
+
+def single_calls(extended=False):
+    calls = [
+        ("store-new-pid-A", _st(2, 0)),
+        ("store-new-pid-B", _st(2, 1)),
+        ("store-bound-pid", _st(0, 1)),
+        ("store-bound-pid-same", _st(0, 0)),
+        ("store-validated", _st(2, 0, ckalgo="sha256", ck="ok", size="ok")),
+        ("tag-A", {"op": "tag", "pid": 2, "cid": ["c", 0]}),
+        ("delete-p0", {"op": "delete", "pid": 0}),
+        ("delete-p1", {"op": "delete", "pid": 1}),
+        ("smeta-p0-default", {"op": "smeta", "pid": 0, "fmt": None, "m": 2}),
+        ("smeta-p2-f1", {"op": "smeta", "pid": 2, "fmt": 1, "m": 1}),
+        ("dmeta-p0-all", {"op": "dmeta", "pid": 0, "fmt": None}),
+        ("dmeta-p0-f1", {"op": "dmeta", "pid": 0, "fmt": 1}),
+    ]
+    if extended:
+        calls += [
+            ("store-validated-wrong", _st(2, 0, ckalgo="md5", ck="wrong")),
+            ("store-validated-other-algo", _st(2, 1, ckalgo="sha3_256", ck="upper", add="blake2b")),
+            ("store-file-stream", _st(2, 0, kind="file", off=1)),
+            ("store-mem-stream", _st(2, 1, kind="mem", short=2)),
+            ("tag-missing", {"op": "tag", "pid": 2, "cid": ["x", 1]}),
+            ("tag-bound", {"op": "tag", "pid": 0, "cid": ["c", 1]}),
+            ("tag-bound-same", {"op": "tag", "pid": 0, "cid": ["c", 0]}),
+            ("delete-p2-unknown", {"op": "delete", "pid": 2}),
+            ("smeta-p0-f1-file", {"op": "smeta", "pid": 0, "fmt": 1, "m": 0, "kind": "file"}),
+            ("dmeta-p1-all", {"op": "dmeta", "pid": 1, "fmt": None}),
+            ("store-nopid-B", _st(None, 1)),
+        ]
+    return calls
+
+
+def single_header(seed=0, blksize=None, write_through=False, mp=False, csize=(5, 9), cfg=None):
+    cfg = cfg or gen_cfg(None, simple=True)
+    return {"seed": seed, "cfg": cfg,
+            "knobs": {"blksize": blksize, "write_through": write_through, "shuffle_listdir": True, "mp": mp},
+            "pids": ["p0", "p1", "p2"], "formats": [cfg["store_metadata_namespace"], "f1"],
+            "contents": [[csize[0], 3], [csize[1], 7]], "mcontents": [[6, 1], [11, 2], [3, 3]]}
+
+
+def gen_single_random(seed, engine, tier="quick"):
+    """A random (start state, call, knobs) for the single-call engines: the start state is a
+    short random history, the call is drawn from the extended menu shapes with random arguments."""
+    rng = rng_for(seed)
+    cfg = gen_cfg(rng)
+    b = rng.choice([None, 1, 3, 16, 4096])
+    bb = b or 16
+    h = single_header(seed, blksize=b, write_through=rng.random() < 0.5, mp=False,
+                      csize=(rng.choice([0, 1, bb - 1, bb, bb + 1, 2 * bb + 1, 3 * bb + 2]),
+                             rng.choice([1, 2, bb, 2 * bb, 5000 + rng.randrange(9000)])), cfg=cfg)
+    if h["contents"][0][0] == h["contents"][1][0]:
+        h["contents"][1][0] += 1
+    h["mcontents"] = [[rng.choice([0, 4, bb + 1]), 1], [rng.choice([1, 9, 3 * bb]), 2], [rng.choice([2, 8200]), 3]]
+    setup = []
+    for _ in range(rng.randint(0, 5)):
+        r = rng.random()
+        if r < 0.5:
+            setup.append(_st(rng.randrange(3), rng.randrange(2)))
+        elif r < 0.6:
+            setup.append(_st(None, rng.randrange(2)))
+        elif r < 0.7:
+            setup.append({"op": "tag", "pid": rng.randrange(3), "cid": rng.choice([["c", 0], ["c", 1], ["x", 0]])})
+        elif r < 0.8:
+            setup.append({"op": "delete", "pid": rng.randrange(3)})
+        else:
+            setup.append({"op": "smeta", "pid": rng.randrange(3), "fmt": rng.choice([None, 0, 1]), "m": rng.randrange(3)})
+    name, call = rng.choice(single_calls(extended=True))
+    call = dict(call)
+    if "pid" in call and call["pid"] is not None and rng.random() < 0.5:
+        call["pid"] = rng.randrange(3)
+    h.update({"engine": engine, "setup": setup, "call": call, "state": "random", "callname": name})
+    return h
